@@ -257,3 +257,39 @@ def sibling_groups(defs):
     for d in defs:
         by.setdefault(d.pgn, []).append(d)
     return [ds for ds in by.values() if len(ds) > 1]
+
+
+def harvested_byte_strings(min_len=2, max_len=16):
+    """Byte strings the code under test mentions literally (bytes and ASCII str literals), and their prefixes of 4+ bytes."""
+    try:
+        from . import harvest
+        c = harvest.constants()
+    except Exception:  # noqa: BLE001
+        return []
+    out = set()
+    # byte literals in full and by prefix; text literals only when they are short, word-like tokens (what a receive path
+    # might compare a frame or a line with) - not log messages
+    texts = [x.encode("latin-1", "ignore") for x in c["strs"] if x.isascii() and 2 <= len(x) <= 16 and " " not in x.strip() and any(ch.isalnum() for ch in x)]
+    for b in list(c["bytes"]) + texts:
+        if min_len <= len(b) <= max_len:
+            out.add(b)
+    for b in c["bytes"]:
+        for k in range(3, min(len(b), max_len)):
+            out.add(b[:k])
+    return sorted(out)[:160]
+
+
+def proprietary_payloads_with(literal: bytes, rng, fast: bool):
+    """Payloads of the catch-all proprietary definitions (manufacturer 2046, nobody's) that carry `literal` in their data."""
+    head = bytes([0xFE, 0x07])
+    if not fast:
+        room = 6
+        for off in range(0, room - min(len(literal), room) + 1):
+            body = bytearray(rng.randrange(1, 250) for _ in range(room))
+            body[off:off + len(literal[:room])] = literal[:room]
+            yield head + bytes(body[:room])
+    else:
+        for off in (0, 3, 4, 5, 9, 11):
+            body = bytearray(rng.randrange(1, 250) for _ in range(off + len(literal) + 3))
+            body[off:off + len(literal)] = literal
+            yield head + bytes(body)
